@@ -139,6 +139,7 @@ type Engine struct {
 	labelCount     map[string]int
 	CrossChecked   int
 	CrossDisagree  []string
+	CrossDismissed int // cross-solver "sat" answers whose model failed validation and which cvc5 refuted
 	CrossSolvers   []string
 	curMaxInput    int
 }
@@ -735,7 +736,19 @@ func (e *Engine) crossCheck(label string, neg *Term) {
 		r := RunStandalone(s, script, time.Duration(e.OblTO)*time.Millisecond)
 		e.CrossChecked++
 		if r == "sat" {
-			e.CrossDisagree = append(e.CrossDisagree, fmt.Sprintf("%s says sat for %q (z3: unsat)", s, label))
+			// A dissenting "sat" is dismissed only when the dissenter's own model fails its
+			// validation AND a third solver (cvc5) independently answers unsat; anything
+			// else leaves the obligation inconclusive.
+			if s == "z3" && RunStandalone("z3-validate", script, time.Duration(e.OblTO)*time.Millisecond) == "invalid-model" &&
+				RunStandalone("cvc5", script, time.Duration(e.OblTO)*time.Millisecond) == "unsat" {
+				e.CrossDismissed++
+				continue
+			}
+			e.CrossDisagree = append(e.CrossDisagree, fmt.Sprintf("%s says sat for %q (z3-new: unsat)", s, label))
+			if d := os.Getenv("GOSYM_DUMP_UNKNOWN"); d != "" {
+				e.dumpSeq++
+				os.WriteFile(fmt.Sprintf("%s/disagree_%s_%d.smt2", d, e.Harness, e.dumpSeq), []byte(script), 0644)
+			}
 		}
 	}
 }
